@@ -1,102 +1,14 @@
 ----------------------------- MODULE Linker_MC -----------------------------
-(* Idiom M: exhaustive exploration of the linker design of Linker.tla on     *)
-(* small universes of link jobs.  A job (input objects, layout, options) is  *)
-(* chosen in Init; the phases then run.  Three families keep the product     *)
-(* small while each dimension is explored exhaustively:                      *)
-(*   "place"  section sizes x alignments x merge order x layouts             *)
-(*   "syms"   every combination of absent / local / global definition /      *)
-(*            global reference of each name in each object, x entry x extra  *)
-(*            symbols x partial x layout-defined symbols                     *)
-(*   "reloc"  relocation sites (every in-bounds offset) x target symbols x   *)
-(*            fitting / non-fitting values                                   *)
+(* Idiom M: exhaustive exploration of the linker design of Linker.tla on the *)
+(* universes of link jobs of LinkerJobs_MC (the engine supplies a LinkerJobs *)
+(* module with Jobs == MCJobs).  A job is chosen in Init; the phases run.    *)
 (* Free = TRUE additionally explores every *legal* padding / output          *)
-(* alignment (not only ppci's), showing the invariants do not depend on      *)
-(* those choices.                                                            *)
-EXTENDS Linker, TLC, SequencesExt
+(* alignment (not only ppci's choice), showing that the invariants do not    *)
+(* depend on those choices.                                                  *)
+EXTENDS Linker, TLC
 
-CONSTANTS Family, Sizes, Aligns, Free, NObj
+CONSTANT Free
 
-S(n, sz, al) == [name |-> n, size |-> sz, align |-> al]
-Y(id, n, b, def, sec, val) == [id |-> id, name |-> n, binding |-> b, def |-> def, sec |-> sec, value |-> val,
-                               typ |-> "object", size |-> 0]
-R(t, sym, sec, off, size) == [type |-> t, sym |-> sym, sec |-> sec, off |-> off, add |-> 0, size |-> size]
-O(secs, syms, rels, entry) == [secs |-> secs, syms |-> syms, rels |-> rels, entry |-> entry]
-I(k, n, al) == [k |-> k, name |-> n, al |-> al]
-M(n, loc, size, ins) == [name |-> n, loc |-> loc, size |-> size, ins |-> ins]
-NoLayout == [on |-> FALSE, entry |-> "", mems |-> <<>>]
-L(entry, mems) == [on |-> TRUE, entry |-> entry, mems |-> mems]
-Opt(partial, entry, extra) == [partial |-> partial, entry |-> entry, extra |-> extra]
-
-SecChoices(n) == {S(n, sz, al) : sz \in Sizes, al \in Aligns}
-TwoSecs == {<<x, y>> : x \in SecChoices("a"), y \in SecChoices("b")}
-           \cup {<<y, x>> : x \in SecChoices("a"), y \in SecChoices("b")}
-OneSec  == {<<x>> : x \in SecChoices("a") \cup SecChoices("b")}
-
------------------------------------------------------------------------------
-(* family "place" *)
-GName == <<"g1", "g2", "g3">>
-\* object o: global g<o> at the end of its first section, a local at the start of its last one
-PlaceObj(o, secs) == O(secs,
-    <<Y(10, GName[o], "global", TRUE, secs[1].name, secs[1].size),
-      Y(20, "l", "local", TRUE, secs[Len(secs)].name, 0)>>, <<>>, -1)
-PlaceInputs == IF NObj = 2
-    THEN {<<PlaceObj(1, s1), PlaceObj(2, s2)>> : s1 \in TwoSecs, s2 \in OneSec \cup TwoSecs}
-    ELSE {<<PlaceObj(1, s1), PlaceObj(2, s2), PlaceObj(3, s3)>> : s1 \in TwoSecs, s2 \in OneSec, s3 \in OneSec}
-PlaceLayouts == {
-    NoLayout,
-    L("", <<M("m1", 2, 12, <<I("section", "a", 0), I("align", "", 4), I("section", "b", 0), I("symbol", "e", 0)>>)>>),
-    L("", <<M("m1", 0, 6, <<I("section", "b", 0), I("symbol", "s", 0)>>),
-            M("m2", 17, 16, <<I("sectiondata", "a", 0), I("align", "", 2), I("section", "c", 0),
-                              I("section", "a", 0)>>)>>)}
-PlaceOpts == {Opt(FALSE, "", <<>>)}
-
------------------------------------------------------------------------------
-(* family "syms": names x, y; per object each name is absent, a local definition,   *)
-(* a global definition or a global reference                                       *)
-Status == {"absent", "local", "gdef", "gref"}
-SymOf(id, n, st) == IF st = "local" THEN <<Y(id, n, "local", TRUE, "a", 0)>>
-                    ELSE IF st = "gdef" THEN <<Y(id, n, "global", TRUE, "a", 1)>>
-                    ELSE IF st = "gref" THEN <<Y(id, n, "global", FALSE, "", 0)>>
-                    ELSE <<>>
-SymObj(sx, sy, entry) == LET syms == SymOf(7, "x", sx) \o SymOf(3, "y", sy) IN
-    O(<<S("a", 1, 1)>>, syms,
-      IF Len(syms) > 0 THEN <<R("t1", syms[1].id, "a", 0, 1)>> ELSE <<>>,
-      IF entry /\ sx = "gdef" THEN 7 ELSE -1)
-SymObjs(entry) == {SymObj(sx, sy, entry) : sx \in Status, sy \in Status}
-SymInputs == IF NObj = 2 THEN {<<p, q>> : p \in SymObjs(TRUE), q \in SymObjs(FALSE)}
-             ELSE {<<p, q, r>> : p \in SymObjs(FALSE), q \in SymObjs(FALSE), r \in SymObjs(FALSE)}
-SymLayouts == {NoLayout,
-               L("", <<M("m", 8, 64, <<I("section", "a", 0), I("symbol", "y", 0)>>)>>),
-               L("x", <<M("m", 8, 64, <<I("symbol", "z", 0), I("section", "a", 0), I("symbol", "z", 0)>>)>>)}
-SymOpts == {Opt(FALSE, "", <<>>), Opt(TRUE, "", <<>>), Opt(FALSE, "y", <<>>),
-            Opt(FALSE, "", <<[name |-> "x", value |-> 5]>>)}
-
------------------------------------------------------------------------------
-(* family "reloc": two objects with one section each (same output section);  *)
-(* up to two relocations per object, every in-bounds site, types of 1 / 2    *)
-(* bytes; type "nofit" stands for a value that does not fit its field        *)
-RelChoices(sz) == {<<>>}
-    \cup UNION {{<<R(t[1], 10, "a", off, t[2])>> : off \in {f \in 0..sz : f + t[2] <= sz}} :
-                     t \in {<<"t1", 1>>, <<"t2", 2>>, <<"nofit", 1>>}}
-    \cup {<<R("t1", 10, "a", o1, 1), R("t2", 20, "a", o2, 2)>> : o1 \in 0..(sz - 1), o2 \in {f \in 0..sz : f + 2 <= sz}}
-RelObj(o, sz, al, rels) == O(<<S("a", sz, al)>>,
-    <<Y(10, GName[o], "global", TRUE, "a", 0), Y(20, "l", "local", TRUE, "a", sz)>>, rels, -1)
-RelInputs == {<<RelObj(1, s1, a1, r1), RelObj(2, s2, a2, r2)>> :
-                 s1 \in Sizes, s2 \in Sizes, a1 \in Aligns, a2 \in Aligns,
-                 r1 \in UNION {RelChoices(s) : s \in Sizes}, r2 \in UNION {RelChoices(s) : s \in Sizes}}
-RelInputsOK == {x \in RelInputs : \A o \in 1..2 : \A k \in 1..Len(x[o].rels) :
-                    x[o].rels[k].off + x[o].rels[k].size <= x[o].secs[1].size}
-RelLayouts == {NoLayout, L("", <<M("m", 6, 32, <<I("section", "a", 0), I("sectiondata", "a", 0)>>)>>)}
-
------------------------------------------------------------------------------
-Inputs  == CASE Family = "place" -> PlaceInputs [] Family = "syms" -> SymInputs [] Family = "reloc" -> RelInputsOK
-Layouts == CASE Family = "place" -> PlaceLayouts [] Family = "syms" -> SymLayouts [] Family = "reloc" -> RelLayouts
-Opts    == CASE Family = "place" -> PlaceOpts [] Family = "syms" -> SymOpts [] Family = "reloc" -> PlaceOpts
-
-\* "Can only apply layout in non-partial links"
-MCJobs == SetToSeq({[inp |-> x, lay |-> y, opt |-> z] : x \in Inputs, y \in Layouts,
-                    z \in {w \in Opts : TRUE}} \ {[inp |-> x, lay |-> y, opt |-> z] :
-                        x \in Inputs, y \in {w \in Layouts : w.on}, z \in {w \in Opts : w.partial}})
 MCInit == /\ job \in 1..Len(Jobs)
           /\ ph = "start" /\ nxt = 0 /\ sub = NoSub /\ dst = StartDst /\ placed = <<>> /\ cur = NoCur /\ fail = ""
 
@@ -107,23 +19,30 @@ AlignOptions(o) == {a \in [1..Len(inp[o].secs) -> {1, 2, 4, 8}] :
                       \A k \in 1..Len(inp[o].secs) :
                           LET i == SecIdx(dst.secs, inp[o].secs[k].name) IN
                           LegalAlign(IF i = 0 THEN 0 ELSE dst.secs[i].align, inp[o].secs[k].align, a[k])}
-FreeInject(o) == \E p \in PadChoices(o), a \in AlignOptions(o) : InjectSections(o, Mk(p), Mk(a))
+FreeInject(o) == \E p \in PadChoices(o), a \in AlignOptions(o) : InjectSections(o, MkT(p), MkT(a))
 
-MCRelocate == \E r \in 1..Len(dst.rels) :
-    \/ dst.rels[r].type # "nofit" /\ Relocate(r)
-    \/ dst.rels[r].type = "nofit" /\ RelocateFails(r)
+\* (the object / relocation index is the state's nxt: no quantifier, so that TLC reports the
+\* coverage of each action separately)
+RelocateFits     == nxt \in 1..Len(dst.rels) /\ dst.rels[nxt].type # "nofit" /\ Relocate(nxt)
+RelocateDoesNotFit == nxt \in 1..Len(dst.rels) /\ dst.rels[nxt].type = "nofit" /\ RelocateFails(nxt)
+InjectSecs == IF Free THEN FreeInject(nxt) ELSE InjectSections(nxt, DesignPads(nxt), DesignAligns(nxt))
+Obj == ph = "inject" /\ nxt \in 1..Len(inp)
+
+DoInjectSections  == Obj /\ InjectSecs
+DoInjectNew       == Obj /\ InjectNew(nxt)
+DoMergeGlobal     == Obj /\ MergeGlobal(nxt)
+DoDuplicateGlobal == Obj /\ DuplicateGlobal(nxt)
+DoInjectRelocs    == Obj /\ InjectRelocs(nxt)
+DoDuplicateEntry  == Obj /\ DuplicateEntry(nxt)
 
 MCWork ==
     \/ Start
-    \/ \E o \in 1..Len(inp) :
-          \/ (IF Free THEN FreeInject(o) ELSE InjectSections(o, DesignPads(o), DesignAligns(o)))
-          \/ InjectNew(o) \/ MergeGlobal(o) \/ DuplicateGlobal(o)
-          \/ InjectRelocs(o) \/ DuplicateEntry(o)
+    \/ DoInjectSections \/ DoInjectNew \/ DoMergeGlobal \/ DoDuplicateGlobal \/ DoInjectRelocs \/ DoDuplicateEntry
     \/ (\E al \in (IF Free THEN {1, 2, 4} ELSE {DefaultAlign}) : PlaceSection(al))
     \/ PlaceSectionData(1) \/ DefineSymbol(1) \/ DefineSymbolTwice
     \/ AlignTo \/ CloseMemory \/ MemoryOverflow \/ EmptyLayout
     \/ CheckUndefined \/ UndefinedFound \/ RelaxNone
-    \/ MCRelocate
+    \/ RelocateFits \/ RelocateDoesNotFit
 MCNext == MCWork \/ Terminated
 
 \* every job ends: a state without successor other than the final stutter is finished
